@@ -30,8 +30,9 @@ def case(rec, cfg, agent, s, op):
             w, exc = None, "ValueError"
     if w is not None and op == "get_many":
         req = ag.Request(cfg, w)
-        sess.inject(agent.reply(cfg, req, [(req.names[0], ("int", 1))]))
-        sess.recv("get_many")
+        if not req.broken and req.names:            # (a request without the name is judged at the Send event)
+            sess.inject(agent.reply(cfg, req, [(req.names[0], ("int", 1))]))
+            sess.recv("get_many")
     sess.close()
     return first, rec.n
 
@@ -56,7 +57,7 @@ def run(tier):
     # GetIter() raising in the constructor is recorded as a refused Send by patching RawSession.send usage:
     for i, t in enumerate(strs):
         s = t["s"]
-        ops = ["get_many", "getnext"] if (thorough or t["cls"] != 3 or (i + SEED) % 3 == 0) else ["get_many"]
+        ops = ["get_many", "getnext"] if (thorough or t["cls"] != 4 or (i + SEED) % 3 == 0) else ["get_many"]
         if thorough:
             ops += ["get", "getbulk"]
         for op in ops:
